@@ -749,41 +749,39 @@ func (self Node) Gets(keys []PathNode, opts *Options) (err error) {
 		return errValue(meta.ErrRead, "", it.Err)
 	}
 	need := len(keys)
+	kind := keys[0].Path.Type()
 	for count := 0; it.HasNext() && count < need; {
+		// read ONE pair, then compare its key with every wanted key (the keys may be asked in any order)
+		var ks string
+		var ki int
+		var kb []byte
+		var v, e int
+		if kind == PathStrKey {
+			_, ks, v, e = it.NextStr(opts.UseNativeSkip)
+		} else if kind == PathIntKey {
+			_, ki, v, e = it.NextInt(opts.UseNativeSkip)
+		} else {
+			_, kb, v, e = it.NextBin(opts.UseNativeSkip)
+		}
+		if it.Err != nil {
+			return errValue(meta.ErrRead, "", it.Err)
+		}
 		for j, id := range keys {
-			if id.Path.Type() == PathStrKey {
-				exp := id.Path.str()
-				_, s, v, e := it.NextStr(opts.UseNativeSkip)
-				if it.Err != nil {
-					return errValue(meta.ErrRead, "", it.Err)
-				}
-				if exp == s {
-					p := &keys[j]
-					count += 1
-					p.Node = self.slice(v, e, et)
-				}
-			} else if id.Path.Type() == PathIntKey {
-				exp := id.Path.int()
-				_, s, v, e := it.NextInt(opts.UseNativeSkip)
-				if it.Err != nil {
-					return errValue(meta.ErrRead, "", it.Err)
-				}
-				if exp == s {
-					p := &keys[j]
-					count += 1
-					p.Node = self.slice(v, e, et)
-				}
+			if id.Path.Type() != kind {
+				continue
+			}
+			var hit bool
+			if kind == PathStrKey {
+				hit = id.Path.str() == ks
+			} else if kind == PathIntKey {
+				hit = id.Path.int() == ki
 			} else {
-				exp := id.Path.bin()
-				_, s, v, e := it.NextBin(opts.UseNativeSkip)
-				if it.Err != nil {
-					return errValue(meta.ErrRead, "", it.Err)
-				}
-				if bytes.Equal(exp, s) {
-					p := &keys[j]
-					count += 1
-					p.Node = self.slice(v, e, et)
-				}
+				hit = bytes.Equal(id.Path.bin(), kb)
+			}
+			if hit {
+				p := &keys[j]
+				count += 1
+				p.Node = self.slice(v, e, et)
 			}
 		}
 	}
